@@ -11,7 +11,7 @@ from values import Unsupported
 from interp import Machine, Stats, Violation
 from mirparse import Program
 from resolve import Resolver
-import models_core, models_coll, models_iter, models_text, models_rand, models_regex  # noqa: F401 (register models)
+import models_core, models_coll, models_iter, models_text, models_rand, models_regex, models_env  # noqa: F401 (register models)
 
 _G = {}
 
